@@ -79,6 +79,12 @@ def main():
         if st != 'OK':
             bad += 1
     json.dump(results, open(os.path.join(VERIF, '.build', 'selftest_results.json'), 'w'), indent=1)
+    # running record over partial runs: the latest verdict of every case (tools/mk_seed_table.py reads this one)
+    mp = os.path.join(VERIF, '.build', 'selftest_results_merged.json')
+    merged = {r['case']: r for r in (json.load(open(mp)) if os.path.exists(mp) else [])}
+    for r in results:
+        merged[r['case']] = r
+    json.dump(list(merged.values()), open(mp, 'w'), indent=1)
     sys.exit(1 if bad else 0)
 
 
